@@ -93,6 +93,34 @@ def gen_cases(tier, seed):
         c['IC'] = [r.randrange(k2) for _ in range(nn_)]
         c.update({'kind': 'e2', 'full': True, 'tmax': c['tmin'] + r.choice([0.05, 0.2]), 'uneven': True})
         out.append(c)
+    # one weight 1e12-1e13 times the others (an "instant" transition next to ordinary ones) on models without cycles (the heavy individual fires once
+    # and leaves its list for good): whatever the list does to its running total when the heavy entry leaves must keep the light entries' rates.
+    # n <= 20 light weights <= 2 sum to < 1e-9 * heavy, the regime in which the library recomputes the total.
+    for j in range(24 if q else 400):
+        cs = case_seed(seed, PID + 'huge', j)
+        r = random.Random(cs)
+        c = simreg.random_sim_case(r, 'Gillespie_simple_contagion', nmax=10)
+        name = r.choice(['SIR', 'SEIR'])
+        sp = specs.spec(name, r)
+        desc = gen.random_graph(r, 8, 20, kinds=['gnp', 'regular', 'tree', 'star', 'cycle', 'complete'])
+        desc['labels'] = r.choice(gen.LABEL_SCHEMES)
+        ne, nn_ = len(desc['edges']), desc['n']
+        heavy = r.choice([1e12, 1e13])
+        ew = [r.choice([0.5, 1.0, 1.5]) for _ in range(ne)]
+        if ne and r.random() < 0.5:
+            ew[r.randrange(ne)] = heavy
+        nw = [r.choice([0.5, 1.0, 2.0]) for _ in range(nn_)]
+        hn = r.randrange(nn_)
+        nw[hn] = heavy
+        desc['ew'], desc['nw'] = {'ew_': ew}, {'nw_': nw}
+        k2 = len(sp['statuses'])
+        IC = [r.choice([0, 1, 1, k2 - 2]) for _ in range(nn_)]
+        IC[hn] = k2 - 2      # the heavy individual starts in the last status that still has a spontaneous way out (I of SIR / SEIR)
+        c.update({'spec': sp, 'spec_name': name, 'graph': desc, 'weight_form': r.choice(['label', 'function']), 'IC': IC, 'return_idx': list(range(k2)),
+                  'kind': 'e2', 'full': True, 'tmin': 0, 'tmax': r.choice([0.5, 2.0]), 'huge': True})
+        for key in ('prehistory', 'spont_boost', 'nbr_boost'):
+            c.pop(key, None)
+        out.append(c)
     # endure: a weighted selection that sees K consecutive rejections (positive probability whenever weights differ)
     for j in range(12 if q else 60):
         cs = case_seed(seed, PID + 'endure', j)
@@ -266,7 +294,7 @@ def run_case(case):
         if case.get('weight_form') == 'function' and not _rate_fn_calls_ok(call, calls, res, tag):
             return res
         try:
-            events = generic_e2.e2_simple(oracle, call.IC, call.tmin, call.tmax, px.log, fails, counters)
+            events = generic_e2.e2_simple(oracle, call.IC, call.tmin, call.tmax, px.log, fails, counters, two_level=bool(case.get('huge')))
         except ParseError as e:
             res['inconclusive'] = 'draw protocol of Gillespie_simple_contagion not recognised: %s' % e
             return res
